@@ -238,7 +238,18 @@ DupAndSuppress ==
             AnyE(<<SeqE("of", <<SuppressE(Ref(2)), X>>), SeqE("of", <<Ref(2), Bt>>)>>),
             AnyE(<<SeqE("of", <<Ref(2), Bt>>), SeqE("of", <<SuppressE(Ref(2)), X>>)>>),
             SeqE("of", <<SuppressE(Opt(SeqE("of", <<Ref(2), X>>))), Ref(2), Opt(Bt)>>)}
-  IN {<<x, y>> : x \in p, y \in q}
+      \* a memoised parser that misses SILENTLY (its error is suppressed) and is reached again at the same position
+      ps == {AnyE(<<SeqE("of", <<Opt(Ref(2)), A>>), SeqE("of", <<Opt(Ref(2)), Bt>>)>>),
+             ChoiceE(<<SeqE("of", <<Opt(Ref(2)), Bt>>), SeqE("of", <<Opt(Ref(2)), A>>), A>>)}
+      qs == {SuppressE(X), SuppressE(SeqE("of", <<A, X>>))}
+      \* a memoised parser that records its furthest failure behind a run of blanks, a left trim in another alternative that
+      \* skips exactly that run and fails there, and the memoised parser reached again afterwards (what the context holds
+      \* must not depend on whether the second visit was answered from the cache)
+      pt == {AnyE(<<SeqE("of", <<Ref(2), LTrim(X, m)>>), SeqE("of", <<Ref(2), Bt>>)>>) : m \in {"spaces", "nl"}} \cup
+            {AnyE(<<SeqE("of", <<Ref(2), LTrim(X, "spaces"), Bt>>), SeqE("of", <<Ref(2), SPt, Bt>>)>>)}
+      qt == {AnyE(<<A, SeqE("of", <<A, SPt, SPt, Bt>>)>>), SeqE("of", <<A, Opt(SeqE("of", <<SPt, Bt>>))>>),
+             SeqE("of", <<A, Opt(SeqE("of", <<SPt, SPt, X, X>>))>>)}
+  IN {<<x, y>> : x \in p, y \in q} \cup {<<x, y>> : x \in ps, y \in qs} \cup {<<x, y>> : x \in pt, y \in qt}
 
 \* Optional directly over (curtailed) left-recursive calls, two nonterminals that meet at the same position from different contexts
 OptLR ==
